@@ -18,6 +18,22 @@ def check(tier, seed):
         C.props_obligations(res, 'C04', wd)
         C.tie_b_request(res, wd)
         cases = RC.run_suite(res, 'C04', tier, seed, 400, 15000, n_req=[1, 1, 2], oracle=lambda sc, rq, r: S.safety_oracle(rq, r), pair_every=25)
+        # fixed corpus: response and ACK of a configuration poll in different attempts - nothing may be returned
+        from .. import reflect as R
+        sk = ','.join(str(k) for k in R.key_tables()['signed']) or '-'
+        proj = RC.proj_for('C04')
+        for name, sc in S.fixed_split_answer_scenarios():
+            out = S.run_scenario(sc)
+            r = S.parse_result(out)
+            desc = S.describe(sc)
+            desc['answer_halves'] = name
+            why = S.safety_oracle(sc['reqs'][0], r)
+            if why is None and r['ret'].startswith('ret=Ubx'):
+                why = 'a frame was returned although no attempt contained both the response and its acknowledgement'
+            if why:
+                res.violation('C04 oracle: ' + why, {'property': 'C04', 'input': desc, 'request': 'poll:' + sc['reqs'][0].label, 'implementation_says': out[:600], 'reason': why},
+                              'C04|poll|fixed-split|' + name.split('/')[0])
+            cases.append(C.Case('request-fixed-split-answer', S.model_cmd(sc, sk), proj(out), desc, domain=False, kind='fixed-split-answer', proj=proj))
         res.compare(cases)
         res.notes['returned_frames'] = sum(1 for c in cases if 'ret=Ubx' in c.impl)
         res.oblige('correspondence request loop: returned frames (Tie A)', not res.disagreements)
